@@ -102,6 +102,8 @@ type Exec struct {
 	sentinels     map[*ssa.Global]*Term
 	sentinelText  map[string]string
 	constGlobals  map[*ssa.Global]Val
+	smallHelper   map[*ssa.Function]bool
+	usedLocals    map[string]bool // GOVC_DEBUG: locals (cells) that contract clauses resolve by name
 	derivedFacts  []string
 	inlined       map[string]bool
 	havocked      map[string]bool
